@@ -1006,9 +1006,10 @@ class HistogramBase(abc.ABC):
                 self._coerce_dtype(array.dtype)
             except ValueError as v:
                 raise TypeError(str(v)) from v
-            self.frequencies = self.frequencies * scalar
+            frequencies = self.frequencies * scalar
             # Not `scalar**2`: a numpy scalar would be squared in its own (possibly narrow) type
             self.errors2 = self.errors2 * scalar * scalar
+            self.frequencies = frequencies
             self._missed = self._missed * scalar
             if hasattr(self, "_stats"):
                 self._stats = self._stats * scalar
